@@ -31,7 +31,7 @@ def splitBar (ts : Toks) : List Toks :=
 /-- entry points documented (or evidently meant) to leave their argument alone -/
 def readOnly : List String :=
   ["clone", "equal", "bound", "planar.area", "planar.centroid", "planar.length", "planar.distfrom",
-   "planar.distfromidx", "geo.area", "geo.length", "geo.lengthhav", "geo.lengthhaversign", "tilecover",
+   "planar.distfromidx", "geo.area", "geo.length", "geo.lengthhav", "geo.lengthhaversign", "tilecover", "tilecover.mergeup",
    "wkb", "ewkb", "wkt", "geojson", "wkb.hex", "wkb.must", "wkb.musthex", "wkb.value", "ewkb.hex",
    "ewkb.must", "ewkb.musthex", "ewkb.value", "ewkb.prefix", "wkt.bytes", "geojson.feature",
    "geojson.bson", "geojson.featurebson", "mvt"]
@@ -56,6 +56,7 @@ def combineOf (e : String) : Option String :=
   else if e == "clip" then some "clip"
   else if e == "smartclip" then some "smartclip"
   else if e == "tilecover" then some "union"
+  else if e == "tilecover.mergeup" then some "cover"
   else if e == "bound" then some "bound"
   else if e == "planar.centroid" then some "centroid"
   else if e == "wkb" || e == "ewkb" || e == "wkt" || e == "geojson" then some e
@@ -92,7 +93,8 @@ def asGeom (v : GVal Float) : Option (Geom Float) := normV v
 def dimOf (g : Geom Float) : Int := SmartClip.dimensions g
 
 /-- the bound pre-test of `clip.Geometry`: `b.Intersects(g.Bound())` -/
-def preOf (g : Geom Float) : Bool := boxF.intersects (Core.bound ebF g)
+def preOfB (box : Bound Float) (g : Geom Float) : Bool := box.intersects (Core.bound ebF g)
+def preOf (g : Geom Float) : Bool := preOfB boxF g
 
 partial def anyGeom (p : Geom Float → Bool) (g : Geom Float) : Bool :=
   p g || (match g with | .collection gs => gs.any (anyGeom p) | _ => false)
@@ -310,10 +312,112 @@ def mvtEmptyLine (v : GVal Float) : Bool :=
   | some g => one g
   | none => false
 
+
+/-! ### parameters (op `callp`)
+
+    `callp <entry> <params> <gval>`: the entry point was called with the parameter values written on
+    the case line (harness/c20p.go).  The clauses are those of `call`; what the DRIVER needs of the
+    parameters is read here from the line: the clip box (bound pre-test), byte order and SRID
+    (header of an encoded collection, member form), the zoom (area covered after MergeUp).  Every
+    other parameter (orientation, threshold, keep count, distance function, rounding factor, point
+    function, query point) enters through the outcomes only: the generic outcome, the kind-specific
+    outcome and the members' outcomes were all produced with the value on the line, so the clauses
+    demand that the generic function hands exactly that value on. -/
+structure Params where
+  box : Bound Float := boxF
+  /-- big-endian WKB / EWKB -/
+  be : Bool := false
+  srid : Nat := 4326
+  /-- zoom of `tilecover.mergeup` -/
+  zoom : Nat := 6
+  /-- suffix of the entry name in verdicts and tags (`@cw`, `@p` …; empty for `call`) -/
+  sfx : String := ""
+
+def parseBox (fs : List String) : Option (Bound Float) :=
+  match fs.mapM hexF with
+  | some [a, b, c, d] => some ⟨⟨a, b⟩, ⟨c, d⟩⟩
+  | _ => none
+
+def defaultBoxTok : List String := ["0000000000000000", "0000000000000000", "4010000000000000", "4010000000000000"]
+
+/-- the parameters of entry `e` from its token; `none`: not a parameter token of that entry -/
+def parseParams (e tok : String) : Option Params :=
+  let fs := tok.splitOn "_"
+  let bx (fs : List String) : String := if fs == defaultBoxTok then "" else "+box"
+  if e == "smartclip" then
+    match fs with
+    | o :: rest =>
+      (match o.toInt?, parseBox rest with
+       | some oi, some b =>
+         let on := if oi == 1 then "ccw" else if oi == -1 then "cw" else "o" ++ o
+         some { box := b, sfx := "@" ++ on ++ bx rest }
+       | _, _ => none)
+    | _ => none
+  else if e == "clip" then (parseBox fs).map fun b => { box := b, sfx := "@p" ++ bx fs }
+  else if e == "wkb" || e == "wkb.hex" || e == "wkb.must" || e == "wkb.musthex" then
+    (if tok == "be" then some { be := true, sfx := "@be" } else if tok == "le" then some { sfx := "@le" } else none)
+  else if e == "ewkb" || e == "ewkb.hex" || e == "ewkb.must" || e == "ewkb.musthex" then
+    match fs with
+    | [s, o] =>
+      (match s.toNat? with
+       | some n => if o == "be" then some { be := true, srid := n, sfx := "@be" ++ (if n == 0 then "0" else "") }
+                   else if o == "le" then some { srid := n, sfx := "@le" ++ (if n == 0 then "0" else "") } else none
+       | none => none)
+    | _ => none
+  else if e == "ewkb.value" then tok.toNat?.map fun n => { srid := n, sfx := "@p" }
+  else if e == "tilecover.mergeup" then
+    match fs with
+    | [z, t] => (match z.toNat?, t.toNat? with
+                 | some zn, some tn => if tn ≤ zn && zn ≤ 12 then some { zoom := zn, sfx := "@p" } else none
+                 | _, _ => none)
+    | _ => none
+  else if e == "tilecover" then tok.toNat?.map fun z => { zoom := z, sfx := "@p" }
+  else if e == "simplify.vis" then
+    match fs with
+    | "t" :: _ => some { sfx := "@thr" }
+    | "k" :: _ => some { sfx := "@keep" }
+    | "b" :: _ => some { sfx := "@both" }
+    | _ => none
+  else if e == "simplify.radial" then
+    match fs with
+    | [d, _] => if ["planar", "sq", "geo", "hav"].contains d then some { sfx := "@" ++ d } else none
+    | _ => none
+  else if e == "simplify.dp" || e == "round" || e == "project" || e == "planar.distfrom" || e == "planar.distfromidx" then
+    some { sfx := "@p" }
+  else none
+
+def be32hex (n : Nat) : String :=
+  natToHex (n / 16777216 % 256) 2 ++ natToHex (n / 65536 % 256) 2 ++ natToHex (n / 256 % 256) 2 ++ natToHex (n % 256) 2
+
+def u32hex (be : Bool) (n : Nat) : String := if be then be32hex n else le32hex n
+
+/-- header of an encoded collection of `n` members: byte order, type 7 (with the SRID flag and the
+    SRID when there is one), member count -/
+def collHeader (be : Bool) (srid : Option Nat) (n : Nat) : String :=
+  let ty := match srid with | some _ => 7 + 0x20000000 | none => 7
+  (if be then "00" else "01") ++ u32hex be ty ++ (match srid with | some s => u32hex be s | none => "") ++ u32hex be n
+
+/-- a stand-alone EWKB encoding with SRID ↦ the form it has as a collection member (no SRID), either byte order -/
+def stripSridO (be : Bool) (m : String) : String :=
+  if !be then stripSrid m
+  else if m.length ≥ 18 && ((m.drop 2).take 2).toString == "20" then
+    "0000" ++ ((m.drop 4).take 6).toString ++ (m.drop 18).toString
+  else m
+
+/-- the tiles of `s` expanded to zoom `Z` (`none`: a tile deeper than `Z`, or unparsable) -/
+def expandTiles (Z : Nat) (s : String) : Option (List String) :=
+  (parseSet s).foldlM (fun acc t =>
+    match (t.splitOn "/").mapM String.toNat? with
+    | some [z, x, y] =>
+      if z > Z then none else
+      let n := 2 ^ (Z - z)
+      some (acc ++ (List.range n).flatMap fun i => (List.range n).map fun j => s!"{Z}/{x * n + i}/{y * n + j}")
+    | _ => none) []
+
 def geomEntry (e : String) : Bool :=
   e == "clone" || e == "round" || e == "project" || e.startsWith "simplify." || e == "clip" || e == "smartclip"
 
-def handleCall (inp out : Toks) : String :=
+def handleCall (inp out : Toks) (P : Params := {}) : String :=
   match inp with
   | [] => "bad input"
   | e :: gtoks =>
@@ -323,38 +427,40 @@ def handleCall (inp out : Toks) : String :=
     let v := toFV vU
     let k := kindTok (gtoks.headD "nil")
     let g? := asGeom v
-    let pre := (g?.map preOf).getD false
+    let pre := (g?.map (preOfB P.box)).getD false
+    -- the entry's name in verdicts: with the class of its parameters when they are not the defaults
+    let en := e ++ P.sfx
     let dim := (g?.map dimOf).getD (-1)
     let malformed := (g?.map malformedBound).getD false
     match splitBar out with
     | [[generic], [typed], [unch], kparts] =>
       if generic == "panic" then
-        (if e == "mvt" && mvtEmptyLine v then s!"propfail panic-empty-line {e}" else s!"propfail panic {e}") else
-      if typed == "panic" then s!"propfail panic-typed {e}" else
+        (if e == "mvt" && mvtEmptyLine v then s!"propfail panic-empty-line {en}" else s!"propfail panic {en}") else
+      if typed == "panic" then s!"propfail panic-typed {en}" else
       let typedOk : Bool :=
         if typed == "-" then true else
         match relate e k pre dim typed (k == "B" && malformed) with
         | some want => generic == want
         | none => true
-      if !typedOk then s!"propfail typed-disagrees {e}" else
-      if readOnly.contains e && unch != "1" then s!"propfail argument-modified {e}" else
+      if !typedOk then s!"propfail typed-disagrees {en}" else
+      if readOnly.contains e && unch != "1" then s!"propfail argument-modified {en}" else
       let verdict : String :=
         match kparts with
-        | ["-1"] => (if k == "nil" || (gtoks.headD "").startsWith "n" then "ok nilval " ++ e else "ok " ++ e)
+        | ["-1"] => (if k == "nil" || (gtoks.headD "").startsWith "n" then "ok nilval " ++ en else "ok " ++ en)
         | kt :: ms =>
           if kt.toNat? != some ms.length then "bad member-count" else
           if ms.any (· == "panic") then
-            (if e == "mvt" then s!"ok coll-member-panics-alone {e}" else s!"propfail panic-member {e}") else
+            (if e == "mvt" then s!"ok coll-member-panics-alone {en}" else s!"propfail panic-member {en}") else
           (match combineOf e with
            | some "sum" =>
              (match hexF generic, ms.mapM hexF with
-              | some g, some fs => if closeF g (fs.foldl (· + ·) 0) then "ok coll-sum " ++ e else s!"propfail collection-sum {e}"
+              | some g, some fs => if closeF g (fs.foldl (· + ·) 0) then "ok coll-sum " ++ en else s!"propfail collection-sum {en}"
               | _, _ => "bad sum")
            | some "min" =>
              (match hexF generic, ms.mapM hexF with
               | some g, some fs =>
                 let m := fs.foldl (fun a b => if b < a then b else a) inf
-                if g == m then "ok coll-min " ++ e else s!"propfail collection-min {e}"
+                if g == m then "ok coll-min " ++ en else s!"propfail collection-min {en}"
               | _, _ => "bad min")
            | some "minidx" =>
              -- the loop of planar/distance_from.go:87-96: strictly closer members replace the answer
@@ -363,7 +469,7 @@ def handleCall (inp out : Toks) : String :=
                 let (m, i, _) := fs.foldl (fun (acc : Float × Int × Int) d =>
                   if d < acc.1 then (d, acc.2.2, acc.2.2 + 1) else (acc.1, acc.2.1, acc.2.2 + 1)) (inf, -1, 0)
                 (match hexF gd, gi.toInt? with
-                 | some g, some gi => if g == m && gi == i then "ok coll-minidx " ++ e else s!"propfail collection-minidx {e}"
+                 | some g, some gi => if g == m && gi == i then "ok coll-minidx " ++ en else s!"propfail collection-minidx {en}"
                  | _, _ => "bad minidx")
               | _, _ => "bad minidx")
            | some "map" =>
@@ -375,43 +481,55 @@ def handleCall (inp out : Toks) : String :=
                -- nil entry kept in the result is a `collection-map` failure like any other deviation.
                let surv := ms.filter (· != "nil")
                let want := if surv.isEmpty then "nil" else collTok surv
-               if generic == want then (if surv.length == ms.length then "ok coll-map " ++ e else "ok coll-map-dropped " ++ e)
-               else s!"propfail collection-map {e}"
-             else if generic == collTok ms then "ok coll-map " ++ e
-             else s!"propfail collection-map {e}"
-           | some "clip" => clipColl e generic pre malformed ms
-           | some "smartclip" => smartColl e generic dim pre malformed ms
+               if generic == want then (if surv.length == ms.length then "ok coll-map " ++ en else "ok coll-map-dropped " ++ en)
+               else s!"propfail collection-map {en}"
+             else if generic == collTok ms then "ok coll-map " ++ en
+             else s!"propfail collection-map {en}"
+           | some "clip" => clipColl en generic pre malformed ms
+           | some "smartclip" => smartColl en generic dim pre malformed ms
            | some "union" =>
              -- tilecover.Collection returns the first member's error
-             if ms.any (· == "err") then (if generic == "err" then "ok coll-union-err " ++ e else s!"propfail collection-union {e}") else
+             if ms.any (· == "err") then (if generic == "err" then "ok coll-union-err " ++ en else s!"propfail collection-union {en}") else
              let u := (ms.flatMap parseSet).eraseDups.mergeSort (· ≤ ·)
-             if (parseSet generic).mergeSort (· ≤ ·) == u then "ok coll-union " ++ e else s!"propfail collection-union {e}"
-           | some "bound" => boundColl e generic ms
+             if (parseSet generic).mergeSort (· ≤ ·) == u then "ok coll-union " ++ en else s!"propfail collection-union {en}"
+           | some "cover" =>
+             -- tilecover.MergeUp of tilecover.Geometry: the area covered by the result (its tiles
+             -- expanded to the zoom of the cover) is the union of the areas the members' results cover
+             if ms.any (· == "err") then (if generic == "err" then "ok coll-cover-err " ++ en else s!"propfail collection-cover {en}") else
+             (match expandTiles P.zoom generic, ms.mapM (expandTiles P.zoom) with
+              | some gt, some mts =>
+                if gt.mergeSort (· ≤ ·) == (mts.flatten.eraseDups).mergeSort (· ≤ ·) then
+                  (if (parseSet generic).any (fun t => !t.startsWith (toString P.zoom ++ "/")) then "ok coll-cover-merged " ++ en else "ok coll-cover " ++ en)
+                else s!"propfail collection-cover {en}"
+              | _, _ => s!"propfail collection-cover-zoom {en}")
+           | some "bound" => boundColl en generic ms
            | some "centroid" =>
              (match g? with
-              | some (.collection gs) => centroidColl e generic gs ms
+              | some (.collection gs) => centroidColl en generic gs ms
               | _ => "bad centroid input")
            | some "wkb" =>
-             if generic == "0107000000" ++ le32hex ms.length ++ String.join ms then "ok coll-concat " ++ e
-             else s!"propfail collection-concat {e}"
+             if generic == collHeader P.be none ms.length ++ String.join ms then "ok coll-concat " ++ en
+             else s!"propfail collection-concat {en}"
            | some "ewkb" =>
-             if generic == "0107000020e6100000" ++ le32hex ms.length ++ String.join (ms.map stripSrid) then "ok coll-concat " ++ e
-             else s!"propfail collection-concat {e}"
+             -- SRID 0: no SRID is written and the encoding is the plain WKB one (ewkb.Marshal's documentation)
+             if generic == collHeader P.be (if P.srid == 0 then none else some P.srid) ms.length
+                 ++ String.join (ms.map (stripSridO P.be)) then "ok coll-concat " ++ en
+             else s!"propfail collection-concat {en}"
            | some "wkt" =>
              let want := if ms.isEmpty then "GEOMETRYCOLLECTION_EMPTY" else "GEOMETRYCOLLECTION(" ++ ",".intercalate ms ++ ")"
-             if generic == want then "ok coll-concat " ++ e else s!"propfail collection-concat {e}"
+             if generic == want then "ok coll-concat " ++ en else s!"propfail collection-concat {en}"
            | some "geojson" =>
              -- a collection without members is written `null` (C02-empty-collection-…, C02-nested-empty-collection)
              let want := if ms.isEmpty then "null"
                else "{\"type\":\"GeometryCollection\",\"geometries\":[" ++ ",".intercalate ms ++ "]}"
-             if generic == want then "ok coll-concat " ++ e else s!"propfail collection-concat {e}"
+             if generic == want then "ok coll-concat " ++ en else s!"propfail collection-concat {en}"
            | some c => "bad combine " ++ c
-           | none => if undecidedHere.contains e then "ok coll-elsewhere " ++ e else "bad entry " ++ e)
+           | none => if undecidedHere.contains e then "ok coll-elsewhere " ++ en else "bad entry " ++ en)
         | _ => "bad members"
       -- a result holding a nil interface member: reported only when every other clause holds, so the
       -- label never absorbs a different failure
       if verdict.startsWith "ok" && geomEntry e && hasNilMember generic && !(gtoks.contains "nil") then
-        s!"propfail result-nil-member {e}"
+        s!"propfail result-nil-member {en}"
       else verdict
     | _ => if out == ["panic"] then "propfail panic harness" else "bad output"
 
@@ -456,6 +574,13 @@ def handle (ts : Toks) : String :=
     let (inp, out) := splitArrow rest
     match op with
     | "call" => handleCall inp out
+    | "callp" =>
+      (match inp with
+       | e :: tok :: gtoks =>
+         (match parseParams e tok with
+          | some P => handleCall (e :: gtoks) out P
+          | none => "bad params " ++ e)
+       | _ => "bad input")
     | "eq" => handleEq inp out
     | _ => "bad op " ++ op
   | [] => "bad empty"
